@@ -39,6 +39,19 @@ def is_abs(v):
         (isinstance(v, tuple) and any(is_abs(x) for x in v))
 
 
+def deep_abs(v, depth=0) -> bool:
+    """does the value contain an abstract part anywhere (lists, tuples, dicts, sets looked into)?"""
+    if is_abs(v):
+        return True
+    if depth > 4:
+        return False
+    if isinstance(v, (list, tuple, set, frozenset)):
+        return any(deep_abs(x, depth + 1) for x in v)
+    if isinstance(v, dict):
+        return any(deep_abs(x, depth + 1) for x in v.values()) or any(deep_abs(x, depth + 1) for x in v.keys())
+    return False
+
+
 TOO_WIDE = object()
 
 
@@ -1565,7 +1578,7 @@ def method(fr, base, name, args, kw, n):
             raise Abort(f"ndarray const method {name}")
         if isinstance(base, BitArr):
             return bits_method(fr, ABits([cbit(x) for x in base], "ba"), name, args, kw, n)
-        if any(is_abs(a) for a in args) or any(is_abs(v) for v in kw.values()):
+        if any(deep_abs(a) for a in args) or any(deep_abs(v) for v in kw.values()):
             if isinstance(base, bytes) and name == "join":
                 out = []
                 for x in fr.iterate(args[0], n):
